@@ -820,7 +820,8 @@ pub fn supervise<P: Property>(p: &P, tier: Tier) -> i32 {
     });
     let evdir = verif_root().join("evidence");
     let _ = std::fs::create_dir_all(&evdir);
-    let _ = std::fs::write(evdir.join(format!("{}.json", p.id())), serde_json::to_string_pretty(&evidence).unwrap());
+    let name = if std::env::var("VERIF_ONLY_BATCH").is_ok() { format!("{}.partial.json", p.id()) } else { format!("{}.json", p.id()) };
+    let _ = std::fs::write(evdir.join(name), serde_json::to_string_pretty(&evidence).unwrap());
     1
 }
 
@@ -1312,7 +1313,8 @@ pub fn check<P: Property>(p: &P, tier: Tier) -> i32 {
     });
     let evdir = verif_root().join("evidence");
     let _ = std::fs::create_dir_all(&evdir);
-    let evpath = evdir.join(format!("{}.json", p.id()));
+    // a debugging run restricted to one batch (VERIF_ONLY_BATCH) must not replace the evidence of a full run
+    let evpath = if std::env::var("VERIF_ONLY_BATCH").is_ok() { evdir.join(format!("{}.partial.json", p.id())) } else { evdir.join(format!("{}.json", p.id())) };
     if let Err(e) = std::fs::write(&evpath, serde_json::to_string_pretty(&evidence).unwrap()) {
         eprintln!("harness error: cannot write evidence: {}", e);
         return 2;
